@@ -559,7 +559,7 @@ class Period(metaclass=_PeriodMeta):
                 case PeriodUnits.YEARS:
                     return cls.from_years(_DatePeriodFields._years_field.units_between(start_date, end_date_))
                 case PeriodUnits.MONTHS:
-                    return cls.from_years(_DatePeriodFields._months_field.units_between(start_date, end_date_))
+                    return cls.from_months(_DatePeriodFields._months_field.units_between(start_date, end_date_))
 
             # Multiple fields
             _, years, months, _, _ = cls.__date_components_between(start_date, end_date_, units)
